@@ -136,7 +136,7 @@ func report(o *runOpts, P *Prog, results []*FuncResult, undecided []string, tLoa
 		if kf != nil {
 			// is there a violation outside the known class?
 			if kf.Class != "" && ob.Result == "sat" {
-				if res := r.VC.outsideClass(ob, kf.Class, o); res == "sat" {
+				if res := ob.vc.outsideClass(ob, kf.Class, o); res == "sat" {
 					kf = nil // a different violation of the same obligation
 				}
 			}
